@@ -33,6 +33,8 @@ def shift_value(v, field=None):
         return {"t": "tuple", "v": [shift_value(x) for x in v["v"]]}
     if t == "obj":
         return dict(v)
+    if t == "dict":
+        return {"t": "dict", "v": [[k, shift_value(x)] for k, x in v["v"]]}
     raise NotShiftable(t)
 
 
